@@ -125,6 +125,7 @@ for n, props, sym in [
     ("sl_sampled_records", ["C06", "C16"], "sampled token item, generator state"),
     ("sl_unsampled_inert_2", ["C05"], "two token items, both sampling flags"),
     ("sl_stale_handles_ignored", ["C10"], "two distinct epochs"),
+    ("sl_full_scope_still_finishes", ["C09", "C10", "C02"], "token item, generator state; scope capacity 2 reached"),
     ("sl_collector_scope", ["C10", "C17"], "epoch"),
 ]:
     H("fastrace", "local::local_span_line", n, props, sym=sym, bound="a SpanLine as a plain value, <= 3 records, tokens of 1..2 items", models=SLM)
@@ -134,9 +135,11 @@ for n, props, sym in [
     ("st_scope_frame_traceless", ["C10"], "outer token item, empty-token scope or collector scope"),
     ("st_span_frame", ["C10"], "token item, generator state"),
     ("st_capacity", ["C09", "C07"], "token items"),
+    ("st_full_scope_exit_span", ["C09", "C10"], "token item, two span ids, epoch; scope built directly at its span limit"),
 ]:
     H("fastrace", "local::local_span_stack", n, props, sym=sym, bound="depth <= 2 scopes, <= 1 span per scope, stack capacity 1 or 4", models=SLM,
-      mem_gb=30 if n in ("st_span_frame",) else 16, tier="thorough" if n in ("st_span_frame",) else "quick", cap_s=1500)
+      mem_gb=30 if n in ("st_span_frame", "st_full_scope_exit_span") else 16,
+      tier="thorough" if n in ("st_span_frame", "st_full_scope_exit_span") else "quick", cap_s=1800)
 
 for n, props, sym in [
     ("sp_guard_drop_pushes_local_spans", ["C01", "C10", "C13", "C05"], "token item (sampled or not), span id, clock"),
@@ -174,6 +177,7 @@ for n, props, sym, kw in [
     ("fu_inspan_scope_pending", ["C13", "C10"], "token item, span id", dict(mem_gb=20, cap_s=1500)),
     ("fu_inspan_finish_ready_root", ["C13", "C03"], "token item, span id, collect id", dict(mem_gb=24, cap_s=1800, flags=NOCHK + ["--no-overflow-checks"])),
     ("fu_inspan_drop_unfinished", ["C13"], "token item, span id", {}),
+    ("fu_inspan_scope_inside_own_scope", ["C13", "C10"], "token item, span id; the same span already is the thread's local parent", dict(mem_gb=20, cap_s=1500)),
     ("fu_enter_on_poll_no_parent", ["C13", "C16"], "none", {}),
 ]:
     H("fastrace", "future", n, [p for p in props if p != "C03"], sym=sym, bound=FUB, models=SPM, **kw)
